@@ -489,6 +489,50 @@ const genFamily = 64
 type GenWorld struct {
 	K    int          `json:"k"`
 	Spec hx.AssetSpec `json:"spec"`
+	// Derived, when set, makes the world a rewritten copy of a bundled asset instead of a generated one
+	Derived *DerivedSpec `json:"derived,omitempty"`
+}
+
+// DerivedSpec: a copy of bundled testpic_2s (video, audio, thumbnails) whose only MPD gives every SegmentTemplate
+// endNumber = EndNumber, i.e. fewer segments than there are files on disk (the loop is EndNumber segments long).
+type DerivedSpec struct {
+	Kind      string `json:"kind"` // "endnumber"
+	EndNumber int    `json:"endnumber"`
+}
+
+const derivedAsset = "derived/endnr"
+
+func buildDerived(root string, d DerivedSpec) error {
+	src := filepath.Join(hx.BundledAssets, "testpic_2s")
+	dst := filepath.Join(root, derivedAsset)
+	for _, sub := range []string{"A48", "V300", "thumbs"} {
+		if err := os.MkdirAll(filepath.Join(dst, sub), 0o755); err != nil {
+			return err
+		}
+		ents, err := os.ReadDir(filepath.Join(src, sub))
+		if err != nil {
+			return err
+		}
+		for _, e := range ents {
+			b, err := os.ReadFile(filepath.Join(src, sub, e.Name()))
+			if err != nil {
+				return err
+			}
+			if err := os.WriteFile(filepath.Join(dst, sub, e.Name()), b, 0o644); err != nil {
+				return err
+			}
+		}
+	}
+	b, err := os.ReadFile(filepath.Join(src, "Manifest_thumbs.mpd"))
+	if err != nil {
+		return err
+	}
+	m := strings.ReplaceAll(string(b), `startNumber="1"`, fmt.Sprintf(`startNumber="1" endNumber="%d"`, d.EndNumber))
+	m = strings.Replace(m, `mediaPresentationDuration="PT8S"`, fmt.Sprintf(`mediaPresentationDuration="PT%dS"`, 2*d.EndNumber), 1)
+	if strings.Count(m, "endNumber=") != 3 {
+		return fmt.Errorf("derived asset: expected 3 SegmentTemplates in Manifest_thumbs.mpd")
+	}
+	return os.WriteFile(filepath.Join(dst, "Manifest.mpd"), []byte(m), 0o644)
 }
 
 // genSpec returns generated asset k of the family (class good: must be served).
@@ -505,6 +549,9 @@ func genRoot(g GenWorld) string {
 	genRootMu.Lock()
 	defer genRootMu.Unlock()
 	b, _ := json.Marshal(g.Spec)
+	if g.Derived != nil {
+		b, _ = json.Marshal(g.Derived)
+	}
 	sum := sha256.Sum256(b)
 	root := filepath.Join(os.TempDir(), "verif-genvod-v2", hex.EncodeToString(sum[:8]))
 	if _, err := os.Stat(filepath.Join(root, ".ok")); err == nil {
@@ -514,7 +561,11 @@ func genRoot(g GenWorld) string {
 	if err != nil {
 		panic("harness: " + err.Error())
 	}
-	if err := hx.GenAssetInRoot(tmp, g.Spec); err != nil {
+	if g.Derived != nil {
+		if err := buildDerived(tmp, *g.Derived); err != nil {
+			panic("harness: cannot build derived asset: " + err.Error())
+		}
+	} else if err := hx.GenAssetInRoot(tmp, g.Spec); err != nil {
 		panic("harness: cannot generate asset: " + err.Error())
 	}
 	if err := os.WriteFile(filepath.Join(tmp, ".ok"), []byte("ok"), 0o644); err != nil {
